@@ -1,10 +1,12 @@
 #!/bin/bash
 # Runs the repository's pinned test suite (the command from /root/.vp/BASELINE.json) in DIR (default /repo)
-# with the verification guard OFF, then restores the tracked log/snapshot files the suite rewrites.
+# with the verification guard OFF, then restores the tracked log/snapshot files the suite rewrites and removes
+# the untracked snapshot/log files it leaves under .data/.logs.
 DIR="${1:-/repo}"
 unset CLEMATIS3_VERIF
 cd "$DIR" || exit 2
 /venv/bin/python -m pytest -ra -q -p no:cacheprovider --timeout=900 --continue-on-collection-errors ${JUNIT:+--junitxml=$JUNIT}
 rc=$?
 git checkout -- .logs .data man 2>/dev/null
+git clean -fdq -- .data .logs 2>/dev/null
 exit $rc
